@@ -195,3 +195,65 @@ pub fn mash(dir: &PathBuf, base: &PathBuf) -> (r: PathBuf)
     ensures r.comps() == spec_mash(dir.comps(), base.comps()),     //@ clause mash.post [C15,C05]
             r.canonical(),
 //@ body
+
+// ---- single-component splitters
+//@ item base file=src/sys/fs/path.rs fn=base props=C15,C12
+//@ sig pub fn base<T: AsRef<Path>>(path: T) -> RvResult<String>
+pub fn base(path: &PathBuf) -> (r: RvResult<Str>)
+    ensures path.comps().len() == 0 ==> r is Err && r->Err_0.kind == ErrKind::ItemNotFound,
+            (path.comps().len() > 0 && r is Ok) ==> r->Ok_0@ == comp_str(path.comps().last()),     //@ clause base.is_last_component [C15]
+            (path.comps().len() > 0 && !(path.comps().last() is Normal)) ==> r is Ok,
+//@ body
+//@ item last file=src/sys/fs/path.rs fn=last props=C15,C12
+pub fn last(path: &PathBuf) -> (r: RvResult<Str>)
+    ensures path.comps().len() == 0 ==> r is Err, (path.comps().len() > 0 && r is Ok) ==> r->Ok_0@ == comp_str(path.comps().last()),     //@ clause last.is_last_component [C15]
+//@ body
+//@ item first file=src/sys/fs/path.rs fn=first props=C15,C12
+pub fn first(path: &PathBuf) -> (r: RvResult<Str>)
+    ensures path.comps().len() == 0 ==> r is Err && r->Err_0.kind == ErrKind::ItemNotFound,
+            (path.comps().len() > 0 && r is Ok) ==> r->Ok_0@ == comp_str(path.comps()[0]),     //@ clause first.is_first_component [C15]
+//@ body
+//@ item trim_first file=src/sys/fs/path.rs fn=trim_first props=C15,C05,C12
+pub fn trim_first(path: &PathBuf) -> (r: PathBuf)
+    ensures r.comps() =~= (if path.comps().len() > 0 { path.comps().skip(1) } else { path.comps() }),     //@ clause trim_first.splits_off_exactly_one [C15]
+//@ body
+//@ item trim_last file=src/sys/fs/path.rs fn=trim_last props=C15,C12
+pub fn trim_last(path: &PathBuf) -> (r: PathBuf)
+    ensures r.comps() =~= (if path.comps().len() > 0 { path.comps().drop_last() } else { path.comps() }),     //@ clause trim_last.splits_off_exactly_one [C15]
+//@ body
+// Option::ok_or_else(|| PathError::parent_not_found(path)) (closure outside Verus): R4
+pub fn ok_or_parent<'a>(o: Option<&'a PathBuf>, p: &PathBuf) -> (r: Result<&'a PathBuf, RvError>)
+    ensures o is Some ==> r is Ok && same_path(r->Ok_0, o->Some_0), o is None ==> r is Err && r->Err_0.kind == ErrKind::ParentNotFound
+{ match o { Some(s) => Ok(s), None => Err(PathError::parent_not_found(p).into()) } }
+//@ item dir file=src/sys/fs/path.rs fn=dir props=C15,C05,C12
+//@ rw R4 1 ⟦path.parent().ok_or_else(|| PathError::parent_not_found(path))?⟧ => ⟦ok_or_parent(path.parent(), path)?⟧
+pub fn dir(path: &PathBuf) -> (r: RvResult<PathBuf>)
+    ensures (path.comps().len() == 0 || path.comps() == seq![Component::RootDir]) ==> r is Err && r->Err_0.kind == ErrKind::ParentNotFound,
+            !(path.comps().len() == 0 || path.comps() == seq![Component::RootDir]) ==> r is Ok && r->Ok_0.comps() == path.comps().drop_last(),     //@ clause dir.splits_off_exactly_one [C15]
+//@ body
+
+// ---- string containment helpers
+//@ item has file=src/sys/fs/path.rs fn=has props=C15,C12
+//@ rw R9 1 ⟦(Ok(base), Ok(path)) => base.contains(&path),⟧ => ⟦(Ok(base), Ok(path2)) => base.contains(&path2),⟧
+pub fn has(path: &PathBuf, val: &PathBuf) -> (r: bool)
+    ensures (path.utf8_ok() && val.utf8_ok()) ==> r == (exists|i: int| 0 <= i && i + val.pstr().len() <= path.pstr().len() && #[trigger] path.pstr().subrange(i, i + val.pstr().len()) == val.pstr()),     //@ clause has.agrees_with_string_containment [C15]
+            !(path.utf8_ok() && val.utf8_ok()) ==> !r,
+//@ body
+//@ item has_prefix file=src/sys/fs/path.rs fn=has_prefix props=C15,C17,C12
+pub fn has_prefix(path: &PathBuf, prefix: &PathBuf) -> (r: bool)
+    ensures r == (path.utf8_ok() && prefix.utf8_ok() && is_prefix(prefix.pstr(), path.pstr())),     //@ clause has_prefix.agrees_with_string_prefix [C15]
+//@ body
+//@ item has_suffix file=src/sys/fs/path.rs fn=has_suffix props=C15,C12
+pub fn has_suffix(path: &PathBuf, suffix: &PathBuf) -> (r: bool)
+    ensures r == (path.utf8_ok() && suffix.utf8_ok() && is_suffix(suffix.pstr(), path.pstr())),     //@ clause has_suffix.agrees_with_string_suffix [C15]
+//@ body
+
+// R4: format!("{}{}", a, b) is string concatenation
+#[verifier::external_body]
+pub fn fmt_concat(a: Str, b: &Str) -> (r: Str) ensures r@ == a@ + b@ { unimplemented!() }
+//@ item concat file=src/sys/fs/path.rs fn=concat props=C15,C12
+//@ rw R4 1 ⟦format!("{}{}", path.as_ref().to_string()?, val.as_ref())⟧ => ⟦&fmt_concat(path.as_ref().to_string()?, val.as_ref())⟧
+//@ rw R1 1 ⟦PathBuf::from(⟧ => ⟦PathBuf::from_s(⟧
+pub fn concat(path: &PathBuf, val: &Str) -> (r: RvResult<PathBuf>)
+    ensures r is Ok == path.utf8_ok(), r is Ok ==> r->Ok_0.pstr() == path.pstr() + val@,     //@ clause concat.appends_without_separator [C15]
+//@ body
